@@ -106,7 +106,7 @@ def args_handler(bound):
             d = pickle.load(f)
         return {"payload": d["payload"] // divide}
 
-    def writer(data, file_info, scale=1):
+    def writer(data, file_info, scale=2):        # (default 2: dropping BOTH argument sets does not cancel out)
         with open(file_info.path, "wb") as f:
             pickle.dump({"payload": data["payload"] * scale}, f)
 
@@ -114,7 +114,7 @@ def args_handler(bound):
         def read(self, file_info, divide=1):
             return reader(file_info, divide=divide)
 
-        def write(self, data, file_info, scale=1):
+        def write(self, data, file_info, scale=2):
             return writer(data, file_info, scale=scale)
     if bound:
         m = Methods()
